@@ -468,8 +468,8 @@ func (lb *LoadBalancer) AddBackend(backendCfg config.BackendConfig) error {
 		ExpectContinueTimeout: 1 * time.Second,
 
 		// Performance optimizations
-		ForceAttemptHTTP2:  true,  // Use HTTP/2 when available
-		DisableCompression: false, // Let backend handle compression
+		ForceAttemptHTTP2:  true, // Use HTTP/2 when available
+		DisableCompression: true, // Let backend handle compression: never add Accept-Encoding or decode replies
 	}
 
 	proxy.Transport = transport
